@@ -10,7 +10,7 @@ import (
 
 // Names shared between rule patterns and generated trees so that rules match often.
 var Names = []string{"a", "b", "c", "foo", "bar", "x.txt", "main.tf", "mod", "sub", "data", "baz.txt", ".git", ".terraform", "modules",
-	"plugins", "logs", "a+b", "(p)", "{c}", "x|y", "^c", "$d", "f.o"}
+	"plugins", "logs", "a+b", "(p)", "{c}", "x|y", "^c", "$d", "f.o", "données", "privé.txt", "größe", "#scratch#", "!NOTES.txt", "star*", "q?"}
 
 // Literal metacharacter names (regex operators that the rule language treats literally).
 var MetaNames = []string{"a+b", "(p)", "{c}", "x|y", "^c", "$d", "f.o"}
@@ -22,6 +22,14 @@ func hasMeta(s string) bool {
 func genSeg(t *rapid.T) string {
 	k := rapid.IntRange(0, 99).Draw(t, "segclass")
 	name := rapid.SampledFrom(Names).Draw(t, "segname")
+	if strings.ContainsAny(name, "#!*?") {
+		// these only match themselves behind a backslash; unescaped they are a
+		// comment, a negation or wildcards (which match the name as well)
+		if k < 80 {
+			return escapeSeg(name)
+		}
+		return name
+	}
 	switch {
 	case k < 55:
 		return name
@@ -47,6 +55,19 @@ func genSeg(t *rapid.T) string {
 	default:
 		return "?" + strings.Repeat("?", rapid.IntRange(0, 2).Draw(t, "qs"))
 	}
+}
+
+// escapeSeg puts a backslash in front of every character that has a meaning in
+// the rule language, so that the segment matches the name literally.
+func escapeSeg(name string) string {
+	var b strings.Builder
+	for _, r := range name {
+		if strings.ContainsRune("#!*?\\", r) {
+			b.WriteByte('\\')
+		}
+		b.WriteRune(r)
+	}
+	return b.String()
 }
 
 // GenPattern draws one pattern (without negation / comment handling).
@@ -98,6 +119,9 @@ func PatternFromPath(t *rapid.T, p string) string {
 		k := rapid.IntRange(0, 99).Draw(t, "mut")
 		switch {
 		case k < 58:
+			if strings.ContainsAny(s, "#!*?") && k < 46 {
+				s = escapeSeg(s) // the name itself, not a comment, negation or wildcard
+			}
 			out = append(out, s)
 		case k < 70:
 			out = append(out, "*")
